@@ -219,17 +219,17 @@ def run_closed(ctx, docs, p_ra=0.3):
             v = bool(is_valid_name(k))
             ctx.case("valid-oracle", k, v, None)
             vcases.append((E.s(k), E.b(v), dict(stream="valid-oracle", name=k, python=v)))
-    # on how many of these documents do the three text-level premises of the closed theorems hold?  (kernel-evaluated;
+    # on how many of these documents do the two text-level premises of the closed theorems hold?  (kernel-evaluated;
     # on those, the monitors' verdict is ALSO a theorem about the model, and the model equals the implementation)
     try:
         texts = sorted({d for d in docs})
         body = ("From EV Require Import Base.Str Model.Pipeline Model.E2E Proofs.ClosedFinal.\n"
                 "Definition texts_ : list str := [" + "; ".join(E.s(t) for t in texts) + "].\n"
-                "Eval vm_compute in (map (fun s => ws_cleanb s && odd_short_rows_silentb s && negb (str_eqb s s_eyecite)) texts_).\n")
+                "Eval vm_compute in (map (fun s => ws_cleanb s && negb (str_eqb s s_eyecite)) texts_).\n")
         vals = core.coq_eval(f"{ctx.cid}_closed_premises", body, 900)
         n_ok = sum(1 for v in vals[0] if v == "true" or v is True)
         ctx.count("find-closed documents on which the premises of the closed theorems hold", n_ok)
-        ctx.count("find-closed documents on which a premise fails (whitespace other than U+0020, odd short-form row, easter egg)",
+        ctx.count("find-closed documents on which a premise fails (whitespace other than U+0020, easter egg)",
                   len(texts) - n_ok)
     except Exception as e:  # noqa
         ctx.notes.append("closed-premise evaluation failed: " + str(e)[-300:])
